@@ -105,7 +105,7 @@ def meta(tier):
     return {
         'functions': loader.functions_encoded(fns),
         'bounds': 'order 1..3 (thorough 4); row/column/inner mode sizes in {1,2,3,4}, rectangular and pairwise distinct where the bound allows; '
-                  'rank profiles in {1,2,3} distinct on the two operands; dense operands with 0..3 leading batch dims; all entries symbolic',
+                  'rank profiles in {1,2,3} distinct on the two operands; dense operands with 0..3 leading batch dims (incl. batch shapes [1] and [1,1]); all entries symbolic',
         'outside': 'IEEE rounding; sizes > 4, ranks > 3, order > 4',
         'assumptions': ['symtorch models torch (validated per run against real torch on seeded inputs)',
                         'z3 sat/unsat verdicts; unknown/time-out counted inconclusive', 'real arithmetic instead of IEEE floats'],
